@@ -1,5 +1,398 @@
 package main
 
+import (
+	"bytes"
+	"encoding/json"
+	"fmt"
+	"go/types"
+	"os"
+	"os/exec"
+	"path/filepath"
+	"strconv"
+	"strings"
+)
+
+// cexValues asks the solvers for a model of the failing part and returns the values of the given terms.
+// The query drops the quantified string axioms that block model construction; the result is a candidate
+// which only counts once it is confirmed by running the real code.
+func cexValues(o *Obligation, part int, terms []string, hints []string, dir string) (map[string]string, string) {
+	if part < 0 || part >= len(o.Parts) {
+		part = 0
+	}
+	for _, mode := range []string{"lite", "noquant"} {
+		extra := append([]string{}, hints...)
+		q := o.queryTextOpt(part, false, extra, true)
+		if mode == "noquant" {
+			var keep []string
+			for _, l := range strings.Split(q, "\n") {
+				if strings.Contains(l, "(forall ") || strings.Contains(l, "(exists ") || l == "(check-sat)" {
+					continue
+				}
+				keep = append(keep, l)
+			}
+			for _, t := range terms {
+				if strings.HasPrefix(t, "(sat ") {
+					keep = append(keep, "(assert (and (<= 0 "+t+") (<= "+t+" 255)))")
+				}
+				if strings.HasPrefix(t, "(slen ") {
+					keep = append(keep, "(assert (<= 0 "+t+"))")
+				}
+			}
+			keep = append(keep, "(check-sat)")
+			q = strings.Join(keep, "\n") + "\n"
+		}
+		q += "(get-value (" + strings.Join(terms, " ") + "))\n"
+		file := filepath.Join(dir, "cex_"+sanitizeFile(o.Name)+".smt2")
+		os.WriteFile(file, []byte(q), 0o644)
+		tmo := 5
+		for _, s := range []string{"z3-new", "z3"} {
+			st, out, _ := runSolver(s, tmo, file)
+			if st != "sat" {
+				continue
+			}
+			i := strings.Index(out, "\n")
+			vals := parseGetValue(out[i+1:], terms)
+			if vals != nil {
+				os.Remove(file)
+				return vals, out
+			}
+		}
+		os.Remove(file)
+	}
+	return nil, ""
+}
+
+// parseGetValue parses "((t v) (t v) ...)" in order of terms.
+func parseGetValue(s string, terms []string) map[string]string {
+	toks := sexpTokens(s)
+	pos := 0
+	var parse func() interface{}
+	parse = func() interface{} {
+		if pos >= len(toks) {
+			return nil
+		}
+		t := toks[pos]
+		pos++
+		if t == "(" {
+			var l []interface{}
+			for pos < len(toks) && toks[pos] != ")" {
+				l = append(l, parse())
+			}
+			pos++
+			return l
+		}
+		return t
+	}
+	top, ok := parse().([]interface{})
+	if !ok || len(top) != len(terms) {
+		return nil
+	}
+	out := map[string]string{}
+	for i, p := range top {
+		pair, ok := p.([]interface{})
+		if !ok || len(pair) != 2 {
+			return nil
+		}
+		out[terms[i]] = sexpString(pair[1])
+	}
+	return out
+}
+
+func sexpTokens(s string) []string {
+	var out []string
+	i := 0
+	for i < len(s) {
+		c := s[i]
+		switch {
+		case c == '(' || c == ')':
+			out = append(out, string(c))
+			i++
+		case c == ' ' || c == '\n' || c == '\t' || c == '\r':
+			i++
+		case c == '|':
+			j := i + 1
+			for j < len(s) && s[j] != '|' {
+				j++
+			}
+			out = append(out, s[i:j+1])
+			i = j + 1
+		case c == '"':
+			j := i + 1
+			for j < len(s) && s[j] != '"' {
+				j++
+			}
+			out = append(out, s[i:j+1])
+			i = j + 1
+		default:
+			j := i
+			for j < len(s) && !strings.ContainsRune("() \n\t\r", rune(s[j])) {
+				j++
+			}
+			out = append(out, s[i:j])
+			i = j
+		}
+	}
+	return out
+}
+
+func sexpString(v interface{}) string {
+	switch x := v.(type) {
+	case string:
+		return x
+	case []interface{}:
+		var ps []string
+		for _, e := range x {
+			ps = append(ps, sexpString(e))
+		}
+		return "(" + strings.Join(ps, " ") + ")"
+	}
+	return ""
+}
+
+func smtIntVal(s string) (int, bool) {
+	s = strings.TrimSpace(s)
+	if strings.HasPrefix(s, "(- ") {
+		n, err := strconv.Atoi(strings.TrimSuffix(strings.TrimPrefix(s, "(- "), ")"))
+		return -n, err == nil
+	}
+	n, err := strconv.Atoi(s)
+	return n, err == nil
+}
+
+// modelString materialises a Str term from the model: length (hinted small) and bytes.
+func modelString(o *Obligation, part int, strTerm string, extraTerms []string, dir string, seed int) (string, map[string]string, string, bool) {
+	for _, bound := range []int{8, 24, 64} {
+		terms := []string{"(slen " + strTerm + ")"}
+		for i := 0; i < bound; i++ {
+			terms = append(terms, fmt.Sprintf("(sat %s %d)", strTerm, i))
+		}
+		terms = append(terms, extraTerms...)
+		vals, out := cexValues(o, part, terms, []string{fmt.Sprintf("(assert (<= (slen %s) %d))", strTerm, bound)}, dir)
+		if vals == nil {
+			continue
+		}
+		n, ok := smtIntVal(vals[terms[0]])
+		if !ok || n < 0 || n > bound {
+			continue
+		}
+		b := make([]byte, n)
+		for i := 0; i < n; i++ {
+			v, ok := smtIntVal(vals[terms[1+i]])
+			if !ok || v < 0 || v > 255 {
+				v = int('a') + (seed+i)%26
+			}
+			b[i] = byte(v)
+		}
+		return string(b), vals, out, true
+	}
+	return "", nil, "", false
+}
+
 func tryReplay(cfg *runCfg, g *Gen, o *Obligation, dir string) (bool, string) {
-	return false, "replay: no concrete failing input reproduced on the real code for this obligation\n"
+	if os.Getenv("VERIF_NO_REPLAY") != "" {
+		return false, "replay: disabled\n"
+	}
+	switch g.pkgShort(o.fx.fn) {
+	case "idl":
+		return replayIDL(cfg, g, o, dir)
+	}
+	return false, "replay: no replay template for this function; no concrete failing input reproduced on the real code\n"
+}
+
+func replayIDL(cfg *runCfg, g *Gen, o *Obligation, dir string) (bool, string) {
+	fx := o.fx
+	fn := fx.fn
+	var rep strings.Builder
+	isMethod := fn.Signature.Recv() != nil
+	var strTerm string
+	var extra []string
+	if isMethod {
+		if len(fn.Params) == 0 {
+			return false, "replay: unsupported receiver\n"
+		}
+		pt, ok := fn.Params[0].Type().Underlying().(*types.Pointer)
+		if !ok || namedOf(pt.Elem()) == nil || namedOf(pt.Elem()).Obj().Name() != "parser" {
+			return false, "replay: unsupported receiver\n"
+		}
+		arr, srt := fx.fieldArr(pt.Elem(), fieldIndex(structOf(pt.Elem()), "input"))
+		h := fx.heapGet(fx.entry, arr, srt)
+		strTerm = "(select " + h + " p!" + fn.Params[0].Name() + ")"
+		parr, psrt := fx.fieldArr(pt.Elem(), fieldIndex(structOf(pt.Elem()), "position"))
+		extra = append(extra, "(select "+fx.heapGet(fx.entry, parr, psrt)+" p!"+fn.Params[0].Name()+")")
+	} else if fn.Name() == "New" {
+		strTerm = "p!" + fn.Params[0].Name()
+	} else {
+		return false, "replay: unsupported function\n"
+	}
+	part := o.FailPart
+	s, vals, solverOut, ok := modelString(o, part, strTerm, extra, dir, cfg.seed)
+	if !ok {
+		// try the other parts
+		for p := range o.Parts {
+			if p == part {
+				continue
+			}
+			s, vals, solverOut, ok = modelString(o, p, strTerm, extra, dir, cfg.seed)
+			if ok {
+				break
+			}
+		}
+	}
+	if !ok {
+		return false, "replay: the solvers produced no model for the failing obligation (quantified goal); no concrete input to run\n"
+	}
+	k0 := 0
+	if len(extra) > 0 {
+		k0, _ = smtIntVal(vals[extra[0]])
+	}
+	fmt.Fprintf(&rep, "solver candidate: input=%q entry-position=%d\n", s, k0)
+	_ = solverOut
+
+	// build the test
+	names := map[string]string{}
+	var call, resDecl string
+	sig := fn.Signature
+	var args []string
+	if isMethod {
+		names[fn.Params[0].Name()] = "p"
+		for _, prm := range fn.Params[1:] {
+			switch {
+			case strings.HasSuffix(prm.Type().String(), "idl.IDL"):
+				args = append(args, "&IDL{}")
+			default:
+				return false, "replay: unsupported parameter type " + prm.Type().String() + "\n"
+			}
+			names[prm.Name()] = args[len(args)-1]
+		}
+		call = "p." + fn.Name() + "(" + strings.Join(args, ", ") + ")"
+	} else {
+		names[fn.Params[0].Name()] = "c.s"
+		call = "New(c.s)"
+	}
+	var resNames []string
+	for i := 0; i < sig.Results().Len(); i++ {
+		if sig.Results().Len() == 1 {
+			resNames = append(resNames, "result")
+			names["result"] = "result"
+			names["result0"] = "result"
+		} else {
+			rn := fmt.Sprintf("result%d", i)
+			resNames = append(resNames, rn)
+			names[rn] = rn
+		}
+	}
+	if len(resNames) > 0 {
+		resDecl = strings.Join(resNames, ", ") + " := "
+	}
+	gc := newGoCompiler(g.cs, names)
+	var reqs []string
+	for _, r := range fx.ct.Requires {
+		t, err := gc.compile(r.Expr)
+		if err != nil {
+			return false, "replay: " + err.Error() + "\n"
+		}
+		reqs = append(reqs, t)
+	}
+	type ens struct{ label, code string }
+	var enss []ens
+	safety := hasProp(fx.tags.safety, cfg.prop)
+	for _, e := range fx.ct.Ensures {
+		props := fx.clauseProps(e, fx.funProps())
+		if cfg.prop != "" && !hasProp(props, cfg.prop) {
+			continue
+		}
+		t, err := gc.compile(e.Expr)
+		if err != nil {
+			fmt.Fprintf(&rep, "replay: clause [%s] not replayable: %v\n", e.Label, err)
+			continue
+		}
+		enss = append(enss, ens{e.Label, t})
+	}
+	var tb strings.Builder
+	tb.WriteString("package idl\n\nimport (\n\t\"fmt\"\n\t\"testing\"\n)\n\n")
+	tb.WriteString("// Generated by /verif/engine: replay of a solver counterexample for obligation\n// " + o.Name + "\n")
+	tb.WriteString("func TestVerifReplay(t *testing.T) {\n")
+	fmt.Fprintf(&tb, "\tmodel := %q\n\tk0 := %d\n", s, k0)
+	tb.WriteString("\ttype cand struct { s string; k int }\n\tvar cands []cand\n\tseen := map[cand]bool{}\n")
+	tb.WriteString("\tadd := func(s string, k int) { c := cand{s, k}; if !seen[c] { seen[c] = true; cands = append(cands, c) } }\n")
+	tb.WriteString("\tadd(model, k0)\n\tfor k := 0; k <= len(model); k++ { add(model, k) }\n")
+	tb.WriteString("\tfor n := 0; n <= len(model); n++ { for k := 0; k <= n; k++ { add(model[:n], k); add(model[n:], 0) } }\n")
+	tb.WriteString("\tfails := 0\n\tfor _, c := range cands {\n\t\tif fails >= 3 { break }\n\t\tfunc() {\n")
+	if isMethod {
+		tb.WriteString("\t\t\tp := &parser{input: c.s, position: c.k}\n\t\t\t_ = p\n")
+	} else {
+		tb.WriteString("\t\t\tif c.k != 0 { return }\n")
+	}
+	if len(reqs) > 0 {
+		tb.WriteString("\t\t\tif !func() (ok bool) { defer func() { if recover() != nil { ok = false } }(); return " + strings.Join(reqs, " && ") + " }() { return }\n")
+	}
+	for i, oe := range gc.olds {
+		fmt.Fprintf(&tb, "\t\t\told_%d := %s\n\t\t\t_ = old_%d\n", i, oe, i)
+	}
+	if safety {
+		tb.WriteString("\t\t\tdefer func() { if r := recover(); r != nil { fails++; fmt.Printf(\"REPLAY-FAIL kind=panic input=%q position=%d panic=%v\\n\", c.s, c.k, r) } }()\n")
+	} else {
+		tb.WriteString("\t\t\tdefer func() { recover() }()\n")
+	}
+	tb.WriteString("\t\t\t" + resDecl + call + "\n")
+	for _, rn := range resNames {
+		tb.WriteString("\t\t\t_ = " + rn + "\n")
+	}
+	for _, e := range enss {
+		fmt.Fprintf(&tb, "\t\t\tif !func() (ok bool) { defer func() { if recover() != nil { ok = false } }(); return %s }() { fails++; fmt.Printf(\"REPLAY-FAIL kind=ensures[%s] input=%%q position=%%d\\n\", c.s, c.k) }\n", e.code, e.label)
+	}
+	tb.WriteString("\t\t}()\n\t}\n\tfmt.Printf(\"REPLAY-DONE candidates=%d fails=%d\\n\", len(cands), fails)\n}\n")
+
+	testFile := filepath.Join(dir, sanitizeFile(o.Name)+"_test.go")
+	os.WriteFile(testFile, []byte(tb.String()), 0o644)
+	out, err := runOverlayTest(cfg, "varlink/idl", testFile, "TestVerifReplay", false)
+	fmt.Fprintf(&rep, "replay test: %s\n", testFile)
+	confirmed := false
+	for _, l := range strings.Split(out, "\n") {
+		if strings.HasPrefix(l, "REPLAY-FAIL") {
+			confirmed = true
+			rep.WriteString(l + "\n")
+		}
+		if strings.HasPrefix(l, "REPLAY-DONE") {
+			rep.WriteString(l + "\n")
+		}
+	}
+	if !confirmed {
+		if err != nil {
+			fmt.Fprintf(&rep, "replay run: %v\n%s\n", err, firstLines(out, 30))
+		}
+		rep.WriteString("replay: the candidate (and its neighbourhood) did not fail on the real code\n")
+	}
+	return confirmed, rep.String()
+}
+
+func sanitizeFile(s string) string {
+	s = sanitize(s)
+	if len(s) > 100 {
+		s = s[:100]
+	}
+	return s
+}
+
+// runOverlayTest injects testFile into pkgDir (relative to the repo) with go test -overlay and runs it.
+func runOverlayTest(cfg *runCfg, pkgDir, testFile, run string, race bool) (string, error) {
+	target := filepath.Join(cfg.repo, pkgDir, "zz_verif_replay_test.go")
+	ov := map[string]map[string]string{"Replace": {target: testFile}}
+	b, _ := json.Marshal(ov)
+	ovFile := testFile + ".overlay.json"
+	os.WriteFile(ovFile, b, 0o644)
+	defer os.Remove(ovFile)
+	args := []string{"test", "-overlay=" + ovFile, "-v", "-vet=off", "-count=1", "-timeout", "60s", "-run", "^" + run + "$"}
+	if race {
+		args = append(args, "-race")
+	}
+	args = append(args, "./"+pkgDir)
+	cmd := exec.Command("go", args...)
+	cmd.Dir = cfg.repo
+	cmd.Env = append(os.Environ(), "GOFLAGS=-mod=mod", "GOPROXY=off", "GOSUMDB=off", "GOTOOLCHAIN=local")
+	var buf bytes.Buffer
+	cmd.Stdout = &buf
+	cmd.Stderr = &buf
+	err := cmd.Run()
+	return buf.String(), err
 }
